@@ -300,4 +300,27 @@ Section DFE.
                 + m4 * ppos_wild * pchange * (n1 - pchange_pos) in
       Some (theta * fs)
     end.
+
+  (** ** which region belongs to which cache.
+      The two tail masses are integrals of the 1-D pdf over the part of (0, inf) that a cache's OWN grid [xs]
+      (= neg_gammas: ascending, negative) does not cover: the neutral tail (0, -xs[-1]) and the lethal tail (-xs[0], inf).
+      [Qd p lo hi] = scipy.integrate.quad(pdf, lo, hi, args=p)  ([hi = None]: +infinity) is the oracle; the regions are
+      computed here, per cache.  A function that combines several caches (Vourlaki_mixture: m5 over s1's grid, m4 and m7
+      over s2's grid) takes each component's tails on the grid the component's trapezoid runs over. *)
+  Definition neu_hi (xs : list F) : F := n0 - last xs n0.
+  Definition del_lo (xs : list F) : F := n0 - hd n0 xs.
+  Definition tails_on (Qd : list F -> F -> option F -> F) (p xs : list F) : F * F :=
+    (Qd p n0 (Some (neu_hi xs)), Qd p (del_lo xs) None).
+
+  (** Cache1D.integrate with the tails of its own grid *)
+  Definition integrate1d_q (Qd : list F -> F -> option F -> F) (ext : bool) (theta : F) (p xs ws ss : list F) (neu : F) : F :=
+    integrate1d ext theta xs ws ss neu (fst (tails_on Qd p xs)) (snd (tails_on Qd p xs)).
+
+  (** Vourlaki_mixture; [ab] = [alpha; beta] *)
+  Definition vourlaki_q (Qd : list F -> F -> option F -> F) (theta : F) (s1 : cache1) (s2 : cache2) (w1 : list F)
+             (W2 : list (list F)) (sym : bool) (t2 : tails2) (w2 : list F) (ab : list F)
+             (ppos_wild gamma_pos pchange pchange_pos : F) : option F :=
+    let ta := tails_on Qd ab (c1_xs s1) in
+    let tb := tails_on Qd ab (c2_xs s2) in
+    vourlaki theta s1 s2 w1 (fst ta) (snd ta) W2 sym t2 w2 (fst tb) (snd tb) ppos_wild gamma_pos pchange pchange_pos.
 End DFE.
